@@ -19,7 +19,7 @@ from lib.coqterm import cbytes, cbool, copt, clist, cN, cZ, hx, unhx
 
 ID = "C15"
 QUICK_N = 1500
-THOROUGH_N = 16000
+THOROUGH_N = 7500
 SHARD = 250
 RULE = ("55% `hs` cases: a chain shape (direct, 1-2 intermediates sent/omitted/out of order/in the trust store, self-signed "
         "trusted or not, rogue CA with the same name, unknown CA, expired/not-yet-valid leaf/intermediate/root, CA:false "
